@@ -227,11 +227,11 @@ def run(tier, seed, procs):
     N, M, K = (3, 3, 2) if quick else (5, 5, 3)
     cols = drive.pool_map(shard_ea_shapes, [None], 1)
     cols += drive.pool_map(drive.shard_enum_story,
-                           [(MOD, n, lay, K) for n in range(0, N + 1) for lay in ('none', 'mixed', 'anon')], procs)
+                           [(MOD, n, lay, K) for n in range(0, N + 1) for lay in ('none', 'mixed', 'anon', 'twins')], procs)
     cols += drive.pool_map(drive.shard_enum_story_big, [(MOD, 3, 270, 2)], 1)
     refs = ['TGT', '', None, 'ZZ-unknown-story']
     cols += drive.pool_map(drive.shard_enum_item,
-                           [(MOD, m, pl, K, pos, refs) for m in range(0, M + 1) for pos in (0, 1) for pl in ('mixed', 'anon-item')], procs)
+                           [(MOD, m, pl, K, pos, refs) for m in range(0, M + 1) for pos in (0, 1) for pl in ('mixed', 'anon-item', 'twin-items')], procs)
     kw = dict(allow_no_slug=True, kinds=list(build.ALL_KINDS), faults='heavy', rich=True, degenerate=True)
     shards, per = (8, 500) if quick else (16, 20000)
     cols += drive.pool_map(drive.shard_hyp_steps,
